@@ -345,6 +345,51 @@ def build_adapters(which=None, variant=0):
     return A
 
 
+def build_edge_settings():
+    """unusual but legal constructor settings (thorough tier): no hidden layer, lmax 0 / 3, odd-only features, an output
+    irrep no path can reach, a single l=1 harmonic.  Returns (adapters, rejected) — a constructor that refuses a
+    setting with an exception is recorded, not judged."""
+    import torch
+    install_shims()
+    from e3nn.nn.models import gate_points_2101 as m1, gate_points_2102 as m2
+    from e3nn.nn.models.v2103 import gate_points_networks as n3
+    from e3nn.nn.models.v2106 import gate_points_networks as n6
+
+    def c12(m, S):
+        return m({"pos": S["pos"], "batch": S["batch"], "x": S["node"]["x"], "z": S["node"]["z"]})
+
+    def c36(m, S):
+        return m({"pos": S["pos"], "batch": S["batch"], "x": S["node"]["x"]})
+    cases = [
+        ("2101.Network[layers=0]", "2101.Network", m1.Network, ("1x1o", "2x0e", "1x0e+1x1e+1x2e", "1x0e", "0e+1o+2e", 0, 1.7, 4, 1, 6, 2.5, 4.0),
+         {"x": "1x1o", "z": "1x0e"}, "1x0e+1x1e+1x2e", c12, 1.7),
+        ("2101.Network[odd-only-hidden]", "2101.Network", m1.Network, ("1x0o", "2x0o+2x1e", "1x0o+1x1e", "1x0e", "0e+1o", 2, 1.7, 4, 1, 6, 2.5, 4.0),
+         {"x": "1x0o", "z": "1x0e"}, "1x0o+1x1e", c12, 1.7),
+        ("2102.Network[sh=1o,radial_layers=0]", "2102.Network", m2.Network, ("1x0e", "2x0e+2x0o+2x1o", "1x1o", "2x0e", "1o", 2, 1.7, 4, 0, 6, 2.5, 4.0),
+         {"x": "1x0e", "z": "2x0e"}, "1x1o", c12, 1.7),
+        ("2101.Network[unreachable-output]", "2101.Network", m1.Network, ("1x0e", "2x0e+2x1o", "1x0e+1x3e", "1x0e", "0e+1o", 1, 1.7, 4, 1, 6, 2.5, 4.0),
+         {"x": "1x0e", "z": "1x0e"}, "1x0e+1x3e", c12, 1.7),
+        ("v2103.SimpleNetwork[lmax=0]", "v2103.SimpleNetwork", n3.SimpleNetwork, ("2x0e", "1x0e", 1.6, 2.0, 5.0, 2, 1, 0), {"x": "2x0e"}, "1x0e", c36, 1.6),
+        ("v2106.SimpleNetwork[lmax=0]", "v2106.SimpleNetwork", n6.SimpleNetwork, ("2x0e", "1x0e", 1.6, 2.0, 5.0, 2, 1, 0), {"x": "2x0e"}, "1x0e", c36, 1.6),
+        ("v2103.SimpleNetwork[layers=0]", "v2103.SimpleNetwork", n3.SimpleNetwork, ("1x1o", "1x0e+1x2e", 1.6, 2.0, 5.0, 2, 0, 2), {"x": "1x1o"}, "1x0e+1x2e", c36, 1.6),
+        ("v2106.SimpleNetwork[layers=0]", "v2106.SimpleNetwork", n6.SimpleNetwork, ("1x1o", "1x0e+1x2e", 1.6, 2.0, 5.0, 2, 0, 2), {"x": "1x1o"}, "1x0e+1x2e", c36, 1.6),
+        ("v2103.SimpleNetwork[odd-input]", "v2103.SimpleNetwork", n3.SimpleNetwork, ("2x0o+1x1e", "1x0o+1x1o", 1.6, 2.0, 5.0, 2, 2, 1), {"x": "2x0o+1x1e"}, "1x0o+1x1o", c36, 1.6),
+        ("v2106.SimpleNetwork[odd-input]", "v2106.SimpleNetwork", n6.SimpleNetwork, ("2x0o+1x1e", "1x0o+1x1o", 1.6, 2.0, 5.0, 2, 2, 1), {"x": "2x0o+1x1e"}, "1x0o+1x1o", c36, 1.6),
+        ("v2106.SimpleNetwork[lmax=3]", "v2106.SimpleNetwork", n6.SimpleNetwork, ("1x0e", "1x3o", 1.6, 2.0, 5.0, 1, 1, 3), {"x": "1x0e"}, "1x3o", c36, 1.6),
+    ]
+    A, rejected = [], []
+    for name, fam, cls, args, nf, out, call, r in cases:
+        try:
+            net = _mk(cls, *args)
+        except Exception as e:  # noqa: BLE001
+            rejected.append(f"{name}: {type(e).__name__}: {str(e)[:160]}")
+            continue
+        a = Adapter(name, net, {k: _I(v) for k, v in nf.items()}, {}, "graph", _I(out), call, {"args": args}, r_max=r)
+        a.family = fam
+        A.append(a)
+    return A, rejected
+
+
 def _conv_adapter(name, net, ir_in, ir_attr, ir_edge, ir_out, n_scal, cfg):
     def call(m, S):
         ei = S["edge_index"]
